@@ -2,6 +2,7 @@ package interp
 
 import (
 	"fmt"
+	"os"
 	"go/constant"
 	"go/token"
 	"go/types"
@@ -66,6 +67,8 @@ func (w *World) arenaFor(t types.Type) *Arena {
 	}
 	return nil
 }
+
+var debugBranch = os.Getenv("VERIF_DEBUG") != ""
 
 type deferred struct {
 	fn   Value // *FuncV or *ssa.Builtin
@@ -266,8 +269,14 @@ func (m *Machine) branch(c *term.T, what string) bool {
 		}
 		return v == 1
 	}
+	if debugBranch {
+		fmt.Fprintf(os.Stderr, "branch #%d %s :: %s @ %s\n", d, what, m.F.String(c), m.where())
+	}
 	rt := m.feasible(c)
-	rf := m.feasible(m.F.Not(c))
+	rf := smt.Sat // the path condition is feasible: if c is impossible, not-c is possible
+	if rt != smt.Unsat {
+		rf = m.feasible(m.F.Not(c))
+	}
 	if rt == smt.Unknown || rf == smt.Unknown {
 		m.R.Unknown = append(m.R.Unknown, "branch feasibility unknown at "+what)
 	}
